@@ -149,7 +149,7 @@ static void ls_dir(const char* root, const char* rel, int depth, int* first) {
             printf(",\"target\":\""); for (k = 0; n > 0 && k < (size_t)n; k++) printf("%02x", (U8)t[k]); printf("\"");
         }
         printf("}");
-        if (S_ISDIR(st.st_mode) && depth < 2) ls_dir(root, r, depth + 1, first);
+        if (S_ISDIR(st.st_mode) && depth < 6) ls_dir(root, r, depth + 1, first);
     }
     closedir(d);
 }
